@@ -183,6 +183,7 @@ def run_interleaved(rep, tier, s0):
         work.append((o, 'cont3z', 3, 3, 3 if tier != 'quick' else 2, False, s0, cap))
         work.append((o, 'mixed3', 2, 2, 1 if tier == 'quick' else 2, True, s0, cap))      # line granularity
         work.append((o, 'cont2s', 2, 2, 1 if tier == 'quick' else 2, True, s0, cap))
+        work.append((o, 'perm4', 2, 2, 1, True, s0, cap))        # per-variable scratch state raced for
         work.append((o, 'cont3z', 2, 2, None, False, s0, cap, None, 5))       # task with an integer seed
         work.append((o, 'cont3z', 3, 3, 2, False, s0, cap, None, 5))
         if tier != 'quick':
